@@ -42,7 +42,9 @@ impl Flow {
                     .get("outputStream")
                     .ok_or(StoryError::BadJson("outputStream not found.".to_owned()))?
                     .as_array()
-                    .unwrap(),
+                    .ok_or(StoryError::BadJson(
+                        "outputStream is not an array.".to_owned(),
+                    ))?,
                 false,
             )?,
             current_choices: json_read::jarray_to_runtime_obj_list(
@@ -50,12 +52,18 @@ impl Flow {
                     .get("currentChoices")
                     .ok_or(StoryError::BadJson("currentChoices not found.".to_owned()))?
                     .as_array()
-                    .unwrap(),
+                    .ok_or(StoryError::BadJson(
+                        "currentChoices is not an array.".to_owned(),
+                    ))?,
                 false,
             )?
             .iter()
-            .map(|o| o.clone().into_any().downcast::<Choice>().unwrap())
-            .collect::<Vec<Rc<Choice>>>(),
+            .map(|o| {
+                o.clone().into_any().downcast::<Choice>().map_err(|_| {
+                    StoryError::BadJson("currentChoices element is not a choice.".to_owned())
+                })
+            })
+            .collect::<Result<Vec<Rc<Choice>>, StoryError>>()?,
         };
 
         flow.callstack.borrow_mut().load_json(
@@ -64,7 +72,7 @@ impl Flow {
                 .get("callstack")
                 .ok_or(StoryError::BadJson("loading callstack".to_owned()))?
                 .as_object()
-                .unwrap(),
+                .ok_or(StoryError::BadJson("loading callstack".to_owned()))?,
         )?;
         let j_choice_threads = j_obj.get("choiceThreads");
 
@@ -134,24 +142,22 @@ impl Flow {
         main_content_container: Rc<Container>,
     ) -> Result<(), StoryError> {
         for choice in self.current_choices.iter_mut() {
-            self.callstack
+            let found_active_thread = self
+                .callstack
                 .borrow()
                 .get_thread_with_index(*choice.original_thread_index.borrow())
-                .map(|o| choice.set_thread_at_generation(o.clone()))
-                .or_else(|| {
-                    let j_saved_choice_thread = j_choice_threads
-                        .and_then(|c| c.get(choice.original_thread_index.borrow().to_string()))
-                        .ok_or("loading choice threads")
-                        .unwrap();
-                    choice.set_thread_at_generation(
-                        Thread::from_json(
-                            &main_content_container,
-                            j_saved_choice_thread.as_object().unwrap(),
-                        )
-                        .unwrap(),
-                    );
-                    Some(())
-                });
+                .map(|o| choice.set_thread_at_generation(o.clone()));
+
+            if found_active_thread.is_none() {
+                let j_saved_choice_thread = j_choice_threads
+                    .and_then(|c| c.get(choice.original_thread_index.borrow().to_string()))
+                    .and_then(|t| t.as_object())
+                    .ok_or_else(|| StoryError::BadJson("loading choice threads".to_owned()))?;
+                choice.set_thread_at_generation(Thread::from_json(
+                    &main_content_container,
+                    j_saved_choice_thread,
+                )?);
+            }
         }
 
         Ok(())
